@@ -372,7 +372,7 @@ func c01Query(a *A, r *Roles, ar *Arms) {
 	if !a.need(qcall != nil && cat != nil, "C01-R1", "Query() and GetStatementCategory calls in the parser") {
 		return
 	}
-	a.check(qcall.Common().Value == r.StrippedEv && qcall.Common().Args[0] == r.FormatPhi, "C01-R1", "query-call@parser", w.posOf(qcall), "Query(format) on the stripped event", "Query is not decoded from the stripped current event")
+	a.check(qcall.Common().Value == r.StrippedEv && r.isFormat(qcall.Common().Args[0]), "C01-R1", "query-call@parser", w.posOf(qcall), "Query(format) on the stripped event", "Query is not decoded from the stripped current event")
 	// category of q.SQL
 	okCat := false
 	if u, ok := cat.Common().Args[0].(*ssa.UnOp); ok {
